@@ -9,6 +9,7 @@ import (
 	"os"
 	"os/exec"
 	"runtime"
+	"strings"
 	"sync"
 	"syscall"
 
@@ -102,14 +103,15 @@ type cliProc struct {
 
 // cliPool hands out worker subprocesses.
 type cliPool struct {
-	self  string
-	free  chan *cliProc
-	mu    sync.Mutex
-	all   []*cliProc
-	died  int
-	calls int64
-	cpuMS map[string]int64
-	nCmd  map[string]int64
+	self    string
+	free    chan *cliProc
+	mu      sync.Mutex
+	all     []*cliProc
+	died    int
+	retries int
+	calls   int64
+	cpuMS   map[string]int64
+	nCmd    map[string]int64
 }
 
 func newCLIPool(n int) (*cliPool, error) {
@@ -164,6 +166,25 @@ func (p *cliPool) close() {
 // run executes `buf args...` with working directory cwd. Exit codes < 0 are harness-level:
 // -2 panic inside the command (recovered), -3 the worker process died.
 func (p *cliPool) run(cwd string, args ...string) bufx.CLIResult {
+	// buf's own --timeout (default 2m) is switched off: on a heavily loaded machine a command can be
+	// descheduled for that long and "context deadline exceeded" would look like a difference between routes.
+	args = append(append([]string(nil), args...), "--timeout=0")
+	var res bufx.CLIResult
+	for attempt := 0; attempt < 3; attempt++ {
+		res = p.runOnce(cwd, args...)
+		// environment-induced failures (worker killed, deadline): try again; a deterministic crash repeats
+		if res.ExitCode == -3 || strings.Contains(res.Stderr, "context deadline exceeded") || strings.Contains(res.Stderr, "context canceled") {
+			p.mu.Lock()
+			p.retries++
+			p.mu.Unlock()
+			continue
+		}
+		break
+	}
+	return res
+}
+
+func (p *cliPool) runOnce(cwd string, args ...string) bufx.CLIResult {
 	w := <-p.free
 	p.mu.Lock()
 	p.calls++
